@@ -98,6 +98,15 @@ class Sizes:
             if isinstance(s, ast.If):
                 # if self.name in [...]: return A else: return B
                 t = s.test
+                if isinstance(t, ast.UnaryOp) and isinstance(t.op, ast.Not):
+                    # if not <test>: A else: B   ==   if <test>: B else: A
+                    flipped = ast.If(test=t.operand, body=s.orelse or [], orelse=s.body)
+                    return self._size_body([flipped] + body[i + 1:], cls, field, st)
+                if (isinstance(t, ast.Compare) and len(t.ops) == 1 and isinstance(t.ops[0], (ast.NotIn, ast.NotEq))
+                        and unparse(t.left).startswith('self.')):
+                    pos_op = ast.In() if isinstance(t.ops[0], ast.NotIn) else ast.Eq()
+                    flipped = ast.If(test=ast.Compare(left=t.left, ops=[pos_op], comparators=t.comparators), body=s.orelse or [], orelse=s.body)
+                    return self._size_body([flipped] + body[i + 1:], cls, field, st)
                 if (isinstance(t, ast.Compare) and len(t.ops) == 1 and isinstance(t.ops[0], (ast.In, ast.Eq))
                         and unparse(t.left).startswith('self.')):
                     attr = unparse(t.left)[5:]
